@@ -464,3 +464,35 @@ def mc(ctx):
 
 
 RULES.append(mc)
+
+
+REDUCING = {"retain": "filter", "filter": "filter", "dedup": "dedup", "dedup_by": "dedup", "dedup_by_key": "dedup", "truncate": "truncate", "pop": "pop",
+            "remove": "remove", "swap_remove": "remove", "drain": "drain", "take": "take", "skip": "skip", "step_by": "step_by", "take_while": "take", "skip_while": "skip",
+            "sort": "sort", "sort_unstable": "sort", "sort_by": "sort", "sort_by_key": "sort", "reverse": "reverse", "rev": "reverse", "split_off": "truncate", "clear": "clear"}
+
+
+@rule("D6", doc="the by-value and the by-reference list of private occurrences are the same list: both drop exactly the public occurrences from all occurrences and do nothing else to it (no de-duplication, truncation, re-ordering) — private and public then cover every occurrence, and the shape code, which walks the by-reference list, agrees with the code that walks the by-value one", once=True)
+def d6(ctx):
+    crate = ctx.lib("default")
+    ops = {}
+    for name in ("private_slot_occurrences", "private_slot_occurrences_mut"):
+        bs = [b for b in crate.by_name.get(name, []) if b.id.startswith("lang::Language::") and b.kind != "Closure"]
+        if len(bs) != 1:
+            raise mir.AnchorMissing("Language::" + name)
+        b = mir.inline_view(crate, bs[0])
+        got = []
+        for c in b.all_calls():
+            if c.callee and not c.body.blocks[c.bb]["cleanup"] and c.callee.name in REDUCING and c.callee.target not in crate.bodies:
+                got.append(REDUCING[c.callee.name])
+        ops[name] = (sorted(got), bs[0])
+    (o1, b1), (o2, b2) = ops["private_slot_occurrences"], ops["private_slot_occurrences_mut"]
+    for name, (o, b) in ops.items():
+        extra = [x for x in o if x != "filter"]
+        ctx.check(not extra, "private-list-only-filtered:" + name, "%s only filters all occurrences" % name,
+                  "%s also applies %s to the list of private occurrences: an occurrence of a bound slot is dropped (or moved), so public and private occurrences no longer cover all occurrences and the list disagrees with its twin" % (name, ", ".join(extra)),
+                  where_of(b))
+    ctx.check(o1 == o2, "private-twins-agree", "private_slot_occurrences and private_slot_occurrences_mut shape their lists the same way",
+              "private_slot_occurrences applies %s, private_slot_occurrences_mut applies %s: the two lists of one node differ" % (o1, o2), where_of(b1))
+
+
+RULES.append(d6)
